@@ -13,6 +13,7 @@ import (
 	"time"
 
 	"zogverif/eng"
+	"zogverif/sat"
 )
 
 func main() {
@@ -33,8 +34,27 @@ func main() {
 	case "engine":
 		engine(*profile, *seed, *n, *out, *shard, *ids)
 	default:
-		fmt.Fprintln(os.Stderr, "unknown family", *family)
-		os.Exit(2)
+		only := map[int]bool{}
+		for _, x := range strings.Split(*ids, ",") {
+			if x != "" {
+				var k int
+				fmt.Sscan(x, &k)
+				only[k] = true
+			}
+		}
+		var o *sat.Out
+		switch *family {
+		case "preds":
+			o = sat.Preds(*seed, *n)
+		case "numeric":
+			o = sat.Numeric(*seed, *n)
+		case "http":
+			o = sat.HTTP(*seed, *n)
+		default:
+			fmt.Fprintln(os.Stderr, "unknown family", *family)
+			os.Exit(2)
+		}
+		o.Write(*family, *seed, *out, *shard, only)
 	}
 }
 
